@@ -81,5 +81,4 @@ def evaluate(ctx, out, problems):
         determinism.evaluate(ctx, out)
     else:
         raise RuntimeError("unknown property " + pid)
-    if problems and not out.violations:
-        out.violations.append(props.no_input_violation(ctx, problems[0], "all probes of this property: observed verdict == verdict the property demands"))
+    out.searched = "all probes / expansions of this property: observed == what the property demands"
